@@ -103,7 +103,7 @@ macro_rules! common {
         }
         impl Default for $T { fn default() -> Self { $T::c(0.0) } }
         impl Add for $T { type Output = $T; fn add(self, o: $T) -> $T { $T(bin!(Add, self.0, o.0)) } }
-        impl Sub for $T { type Output = $T; fn sub(self, o: $T) -> $T { $T(bin!(Sub, self.0, o.0)) } }
+        impl Sub for $T { type Output = $T; fn sub(self, o: $T) -> $T { if self.0 == o.0 { return $T::c(0.0); } $T(bin!(Sub, self.0, o.0)) } } // x - x == +0.0 exactly for every finite x
         impl Mul for $T { type Output = $T; fn mul(self, o: $T) -> $T { $T(bin!(Mul, self.0, o.0)) } }
         impl Div for $T { type Output = $T; fn div(self, o: $T) -> $T { $T(bin!(Div, self.0, o.0)) } }
         impl<'a> Add<&'a $T> for $T { type Output = $T; fn add(self, o: &$T) -> $T { self + *o } }
